@@ -246,6 +246,8 @@ def run(ctx):
     rows2 = list(range(4, 65, 4)) + ([96, 128, 192, 256] if thorough else [])
     cols2 = list(range(64, 513, 64)) + ([640, 768, 1024] if thorough else [])
     cases = [("v2", False, N, K) for N in rows2 for K in cols2]
+    # the v2 entry point also takes (and stores) the reorder flag: packing ignores it, so unpacking must as well
+    cases += [("v2", True, N, K) for N in rows2[::3] for K in cols2[::2]]
     rows1 = [1, 2, 3, 4, 7, 16, 33] + ([64, 100, 128] if thorough else [])
     cols1 = list(range(8, 129, 8)) + ([192, 256, 512] if thorough else [])
     for reorder in (False, True):
